@@ -11,6 +11,7 @@ use crate::report::{finish, h128, CheckMeta, Report};
 use crate::scen::{Rig, Scenario, WorldSpec};
 use crate::seams;
 use crate::with_kit;
+use oxmpl::base::space::StateSpace;
 use oxmpl::base::error::PlanningError;
 use rayon::prelude::*;
 use serde_json::{json, Value};
@@ -384,7 +385,7 @@ fn infeasible_seeded<K: Kit>(sc0: &Scenario, _depth: usize, rep: &mut Report) {
             } else {
                 for _ in 0..3 {
                     oxmpl::verif::clock_reset(1_000_000);
-                    out.push(rig.drv.solve(iters(60)).map(|p| p.len()));
+                    out.push(rig.drv.solve(iters(150)).map(|p| p.len()));
                 }
             }
             out
@@ -393,7 +394,7 @@ fn infeasible_seeded<K: Kit>(sc0: &Scenario, _depth: usize, rep: &mut Report) {
             Err(c) => return caught_to_report(&sc, "infeasible-seeded", &[], c, rep),
             Ok(results) => {
                 rep.count("infeasible_seeded_runs", 1);
-                rep.count("transitions", 180);
+                rep.count("transitions", 450);
                 for r in results {
                     match r {
                         Ok(n) => {
@@ -437,6 +438,15 @@ fn with_frac(spec: &Spec, f: f64) -> Option<Spec> {
         _ => return None,
     }
     Some(s)
+}
+
+fn farthest_from<K: Kit>(b: &crate::catalog::Base, s: &crate::kit::V) -> crate::kit::V {
+    let sp = K::build(&b.spec);
+    let x = K::from_v(s);
+    b.alphabet.iter().max_by(|p, q| sp.distance(&x, &K::from_v(p)).partial_cmp(&sp.distance(&x, &K::from_v(q))).unwrap()).unwrap().clone()
+}
+fn marginal_ball_for<K: Kit>(b: &crate::catalog::Base, t: &crate::kit::V, toward: &crate::kit::V, r: f64, depth: f64) -> crate::scen::ObstSpec {
+    crate::scen::marginal_ball::<K>(&b.spec, t, toward, r, depth)
 }
 
 fn jobs(tier: &str) -> Vec<Job> {
@@ -497,6 +507,22 @@ fn jobs(tier: &str) -> Vec<Job> {
                 b.world_named("goal-region-entirely-invalid", vec![b.goal_dead.clone()]),
                 b.world_named("start-sealed-in", vec![b.seal_start.clone()]),
             ];
+            // the only goal sample sits marginally (0.03 L) inside an obstacle that swallows the whole
+            // (tiny) goal region: infeasible, but a goal-side tree rooted there could grow outwards
+            {
+                let l = crate::refspace::lvs(&b.spec);
+                let s1 = b.goal_samples[1].clone();
+                let far = with_kit!(kit, farthest_from(&b, &s1));
+                let ob = with_kit!(kit, marginal_ball_for(&b, &s1, &far, 2.5 * l, 0.03 * l));
+                for sm in [1.0, 0.3] {
+                    let mut sc = b.scenario(b.world_named("goal-sample-marginally-inside", vec![ob.clone()]), b.params(pk, if pk == Pk::Prm { 1.6 } else { sm }, 2.5, 0.0), &format!("C06/infeasible/{kit}/goal-sample-marginally-inside/{}x{sm}", pk.name()));
+                    sc.goal_samples = vec![s1.clone()];
+                    sc.goal_balls = vec![(s1.clone(), 0.01 * l)];
+                    let depth = if deep { 3 } else { 2 };
+                    out.push(Job { sc: sc.clone(), part: 3, letters: (0..b.alphabet.len() as u8).collect(), depth });
+                    out.push(Job { sc, part: 5, letters: vec![0], depth: 1 });
+                }
+            }
             for w in &inf {
                 for sm in [1.0, 1e6] {
                     let roots: Vec<u8> = if pk == Pk::Connect { vec![0, 1] } else { vec![0] };
